@@ -146,6 +146,23 @@ func genDict(r *rand.Rand) []dictPair {
 			ps[k].keyText, ps[k].keyKind, ps[k].mkKey = ps[j].keyText, ps[j].keyKind+"-dup", ps[j].mkKey
 		}
 	}
+	// keys derived from one shared prefix by Clone (the way generators build families of selectors): every key is
+	// prefix.Clone().Index(n); the prefix has spare capacity, so clones that shared storage would overwrite each other
+	if n >= 2 && r.Intn(5) == 0 {
+		prefix := jen.Id("cfg").Dot("Opts").Dot("Field")
+		if r.Intn(2) == 0 {
+			prefix = jen.Id("tbl").Dot("Rows").Dot("At").Dot("Cell")
+		}
+		text := map[bool]string{true: "cfg.Opts.Field", false: "tbl.Rows.At.Cell"}[len(*prefix) == 5]
+		for cnt, k := 0, r.Intn(n); cnt < 2+r.Intn(3) && cnt < n; cnt, k = cnt+1, (k+1)%n {
+			if ps[k].keyText == "" {
+				continue
+			}
+			idx := 100 + k
+			ps[k].keyText, ps[k].keyKind = fmt.Sprintf("%s[%d]", text, idx), "clone-derived"
+			ps[k].mkKey = func() jen.Code { return prefix.Clone().Index(jen.Lit(idx)) }
+		}
+	}
 	// pairs that render identically altogether (distinct Code values, same key text, same value text): a map
 	// literal with non-constant keys may hold them, and each is a pair of its own
 	if n >= 2 && r.Intn(6) == 0 {
@@ -551,7 +568,7 @@ func c16IntCase(r *mon.Run, idx int64) {
 }
 
 func runC16(r *mon.Run) {
-	r.SetRule("random Dicts of 0-40 pairs; keys from literals, identifiers (incl. prefix-related a/ab/a.b/a[0]/aZ), calls, qualified identifiers, composite and binary expressions, forced render-identical duplicate keys, and pairs whose key and value both render identically, null keys/values (Null(), Add(), List(), typed nil, Tag(nil)); every value is a unique marker; rendered formatted, NoFormat and via DictFunc; non-trivial = >=2 pairs with both sides non-null; distinct by Dict text")
+	r.SetRule("random Dicts of 0-40 pairs; keys from literals, identifiers (incl. prefix-related a/ab/a.b/a[0]/aZ), calls, qualified identifiers, composite and binary expressions, keys derived by Clone from one shared prefix, forced render-identical duplicate keys, and pairs whose key and value both render identically, null keys/values (Null(), Add(), List(), typed nil, Tag(nil)); every value is a unique marker; rendered formatted, NoFormat and via DictFunc; non-trivial = >=2 pairs with both sides non-null; distinct by Dict text")
 	r.Assume("'ordered by the rendered text of their keys' admits both the text as written and the text after gofmt; nil interface keys/values are API misuse and not generated")
 	c16NegControls(r)
 	n := r.Pick(12000, 1500000)
